@@ -336,8 +336,35 @@ Fixpoint uniqb (x : Z) (es : list edge) : bool :=
 Definition valid_atb (times : list Z) (es : list edge) (x : Z) : bool :=
   sortedb times es && forallb (fun e => time_of times (echild e) <? time_of times (eparent e)) es && uniqb x es.
 
-Definition c19_check_valid (c : case) : bool :=
-  forallb (valid_atb (ctimes c) (cedges c)) (zrange 0 (Z.to_nat (cL c))).
+(* the checkable validity predicate of Props.C19.ibd_alg_refines_spec: what
+   tsk_table_collection_check_integrity (TSK_CHECK_TREES) guarantees for the columns the IBD finder
+   reads, plus well-formed arguments (ids in range, no node twice, non-negative thresholds) *)
+Definition in_range (N u : Z) : bool := (0 <=? u) && (u <? N).
+
+Definition edge_wf (N L : Z) (e : edge) : bool :=
+  in_range N (eparent e) && in_range N (echild e) && (0 <=? eleft e) && (eleft e <? eright e) && (eright e <=? L).
+
+Fixpoint nodupb (l : list Z) : bool :=
+  match l with [] => true | h :: t => negb (memz h t) && nodupb t end.
+
+Definition groups_wf (c : case) : bool :=
+  let N := num_nodes c in
+  match cgroups c with
+  | GDefault => true
+  | GWithin w => forallb (in_range N) w && nodupb w
+  | GBetween sets => forallb (in_range N) (concat sets) && nodupb (concat sets)
+  end.
+
+Definition case_valid (c : case) : bool :=
+  (0 <=? cL c) && (length (cflags c) =? length (ctimes c))%nat
+  && forallb (edge_wf (num_nodes c) (cL c)) (cedges c)
+  && forallb (valid_atb (ctimes c) (cedges c)) (zrange 0 (Z.to_nat (cL c)))
+  && sortedb (ctimes c) (cedges c)
+  && forallb (fun e => time_of (ctimes c) (echild e) <? time_of (ctimes c) (eparent e)) (cedges c)
+  && groups_wf c
+  && (0 <=? cminspan2 c) && match cmaxtime2 c with Some m => 0 <=? m | None => true end.
+
+Definition c19_check_valid (c : case) : bool := case_valid c.
 
 (* ------------------------------------------------------------------------------------ *)
 (* comparison helpers for the per-run correspondence                                     *)
